@@ -1866,8 +1866,75 @@ func nilSideOf(cond ssa.Value, v ssa.Value) (int, bool) {
 		if cal.Name() == "IsNotNil" {
 			return 1, true
 		}
+		// a predicate of the package that answers true for nil-likes only (nothingToCollect(it))
+		if trueImpliesNil(cal, 0) {
+			return 0, true
+		}
 	}
 	return 0, false
+}
+
+// trueImpliesNil: a one-parameter bool function of the analysed package every true answer of which is given on the nil
+// side of a nil test of its parameter, or is the answer of IsNil / another such predicate on that parameter.
+func trueImpliesNil(f *ssa.Function, depth int) bool {
+	if f == nil || f.Blocks == nil || len(f.Params) != 1 || depth > 3 || f.Signature.Results().Len() != 1 || !isBoolType(f.Signature.Results().At(0).Type()) {
+		return false
+	}
+	p := f.Params[0]
+	nilDominated := func(b *ssa.BasicBlock) bool {
+		for d := b; d != nil; d = d.Idom() {
+			id := d.Idom()
+			if id == nil {
+				break
+			}
+			if iff, ok := id.Instrs[len(id.Instrs)-1].(*ssa.If); ok {
+				if side, isNil := nilSideOf(iff.Cond, p); isNil && id.Succs[side] == d && len(d.Preds) == 1 {
+					return true
+				}
+			}
+		}
+		return false
+	}
+	var okVal func(v ssa.Value, at *ssa.BasicBlock, d int) bool
+	okVal = func(v ssa.Value, at *ssa.BasicBlock, d int) bool {
+		if d > 6 {
+			return false
+		}
+		switch x := v.(type) {
+		case *ssa.Const:
+			if x.Value != nil && x.Value.Kind() == constant.Bool && !constant.BoolVal(x.Value) {
+				return true
+			}
+			return nilDominated(at)
+		case *ssa.Phi:
+			for i, e := range x.Edges {
+				if !okVal(e, x.Block().Preds[i], d+1) {
+					return false
+				}
+			}
+			return true
+		case *ssa.Call:
+			cal := x.Common().StaticCallee()
+			if cal == nil || len(x.Common().Args) != 1 || unwrap(x.Common().Args[0]) != ssa.Value(p) {
+				return false
+			}
+			return cal.Name() == "IsNil" || trueImpliesNil(cal, depth+1)
+		case *ssa.BinOp:
+			if side, isNil := nilSideOf(x, p); isNil && side == 0 {
+				return true
+			}
+		}
+		return false
+	}
+	n := 0
+	for _, rb := range returnBlocks(f) {
+		ret := rb.Instrs[len(rb.Instrs)-1].(*ssa.Return)
+		if len(ret.Results) != 1 || !okVal(ret.Results[0], rb, 0) {
+			return false
+		}
+		n++
+	}
+	return n > 0
 }
 
 // nilTestOperand: the value a nil test is about (x == nil, x != nil, IsNil(x), !…) and the successor taken when it is nil.
